@@ -626,19 +626,19 @@ func flatCatalogues(c *Ctx) (singles, pairs []gen.Feature) {
 	}
 	singles = append(singles, gen.Catalogue(rest, func(hn string) bool { return sweepHolders[hn] }, named)...)
 	singles = append(singles, gen.OtherFeatures(gen.Sigma)...)
-	// quick pairs: 6 holders x one representative content per class + other features (3 names)
-	rep := map[string]bool{"prop": true, "additionalItems": true, "allOfMember": true, "opBody": true, "pathBody": true, "sharedResponse": true}
-	repContent := map[string]bool{"primitive": true, "object": true, "tuple": true, "refLocal[pet owner]": true, "refAux[pet]": true, "refAuxDeep": true,
-		"selfRecursiveAux": true, "arrayOfItself": true, "pointer[properties,complex]": true, "pointer[items,simple]": true,
-		"collidingImport[sameName]": true, "collidingImport[twoAtOnce]": true, "collidingImport[sameNameSimple]": true,
-		"twoImportsCaseDifferent": true, "twoImportsSameNameTwoFiles": true, "nestedObjects3": true, "objectWithRefsAndInline": true,
-		"pointer[properties,refAuxCollide]": true, "pointer[items,refAux]": true, "selfRecursiveAuxColliding[simple]": true}
+	// quick pairs: a core of 3 holders x 15 contents (collisions, pointers, recursion, imports) + 8 other features
+	rep := map[string]bool{"prop": true, "opBody": true, "sharedResponse": true}
+	repContent := map[string]bool{"object": true, "refLocal[pet owner]": true, "refAux[pet]": true, "selfRecursiveAux": true, "arrayOfItself": true,
+		"pointer[properties,complex]": true, "pointer[items,simple]": true, "pointer[properties,refAuxCollide]": true, "pointerNestedInTarget": true,
+		"collidingImport[sameName]": true, "collidingImport[sameNameSimple]": true, "collidingImport[twoAtOnce]": true, "twoImportsCaseDifferent": true,
+		"selfRecursiveAuxColliding[simple]": true, "auxDiamondColliding[recursive]": true}
 	pairs = gen.Catalogue(three, func(hn string) bool { return rep[hn] }, func(ct gen.Content) bool { return repContent[ct.Label] })
+	repOther := map[string]bool{"paramRef": true, "responseRef": true, "pathItemRef": true, "secondPath": true, "unusedDefinition[a/b]": true, "unusedChain3": true,
+		"preNamed[thingOAIGen]": true, "preNamed[getPOKBody]": true}
 	for _, f := range gen.OtherFeatures(three) {
-		if f.Class == "prenamed" && !strings.Contains(f.Label, "OAIGen") && !strings.Contains(f.Label, "getPOKBody") {
-			continue
+		if repOther[f.Label] {
+			pairs = append(pairs, f)
 		}
-		pairs = append(pairs, f)
 	}
 	return
 }
